@@ -5,6 +5,8 @@ package main
 import (
 	"fmt"
 	"sort"
+	"sync/atomic"
+	"time"
 
 	"github.com/utreexo/utreexo"
 )
@@ -20,7 +22,13 @@ func partialRows(tier string) []uint8 {
 	return []uint8{0, 3, 63}
 }
 
+// counts the cases in which a refused call left a lock behind: two are enough to report
+var lockLeftSeen atomic.Int32
+
 func (r *Runner) replayPartial(l *Line) lineResult {
+	if a := l.Step.A; lockLeftSeen.Load() >= 2 && !r.one && (a == "badundo" || a == "badmod" || a == "badvrem") {
+		return lineResult{skipped: "refused calls already left a lock behind twice in this run"}
+	}
 	r.internLine(l)
 	w := NewWorld(r.sy, WorldCfg{Rows: partialRows(r.cfg.Tier), Seed: r.cfg.Seed, MapPart: true})
 	w.serial = r.serial
@@ -35,9 +43,15 @@ func (r *Runner) replayPartial(l *Line) lineResult {
 			continue
 		}
 		w.partialStep(&steps[i])
-		w.checkRoots(steps[i].Post, "C01", "C09")
+		if w.lockLeft {
+			// an instance no longer answers: nothing more can be asked
+			return lineResult{fails: w.fails, calls: w.mon.ncalls, insts: len(w.insts), nontrivial: true}
+		}
+		if steps[i].A != "badundo" {
+			w.checkRoots(steps[i].Post, "C01", "C09")
+		}
 	}
-	if l.Step.A != "missq" {
+	if l.Step.A != "missq" && l.Step.A != "badundo" {
 		w.partialCompare(&l.Expect)
 	}
 	st := &l.Step
@@ -67,6 +81,10 @@ func (w *World) partialStep(st *Step) {
 		prevN := w.nStk[len(w.nStk)-1]
 		proof = utreexo.Proof{Targets: w.encTargets(st.Pf.T, treeRows(prevN)), Proof: w.sy.Hs(st.Pf.P)}
 		w.ctx["C06"] = true
+	case "badundo":
+		hashes = w.leafHashes(st.D)
+		prevN := w.nStk[len(w.nStk)-1]
+		proof = utreexo.Proof{Targets: w.encTargets(st.Pf.T, treeRows(prevN))} // the hashes are withheld
 	}
 	rem := map[int]bool{}
 	for _, i := range st.Rem {
@@ -171,6 +189,10 @@ func (w *World) partialStep(st *Step) {
 						w.fail([]string{"C03"}, in, "unsound", "VerifyPartialProof(remember) accepted a proof in which the "+st.Bad+" was replaced by a fresh value", "error", "nil")
 					}
 				}
+			case "badundo":
+				// refused or not, the call must return and leave the forest usable (checked below)
+				_ = in.M.Undo(uint64(st.K), utreexo.Proof{Targets: g.U("proof.Targets", proof.Targets)},
+					g.H("delHashes", hashes), g.H("prevRoots", w.sy.Hs(st.Pre)))
 			case "vrem":
 				err = in.M.Verify(g.H("delHashes", hashes),
 					utreexo.Proof{Targets: g.U("proof.Targets", proof.Targets), Proof: g.H("proof.Proof", proof.Proof)}, true)
@@ -195,6 +217,24 @@ func (w *World) partialStep(st *Step) {
 			w.fail(props, in, "panic", st.A+" panicked: "+pan, nil, nil)
 		} else if err != nil {
 			w.fail(props, in, "error", st.A+" failed: "+err.Error(), nil, nil)
+		}
+		if st.A == "badmod" || st.A == "badvrem" || st.A == "badundo" {
+			// a call that refuses its input must not leave a lock behind: a reader and a
+			// writer are still served afterwards
+			m := in.M
+			done := make(chan struct{})
+			go func() {
+				defer func() { recover(); close(done) }()
+				m.GetNumLeaves()
+				m.Prune(nil)
+			}()
+			select {
+			case <-done:
+			case <-time.After(15 * time.Second):
+				w.lockLeft = true
+				lockLeftSeen.Add(1)
+				w.fail([]string{"C12"}, in, "lockleft", "after the refused "+st.A+" the forest no longer answers: GetNumLeaves / Prune did not return within 15s (a lock was left behind)", nil, nil)
+			}
 		}
 	}
 	switch st.A {
